@@ -57,6 +57,9 @@ CHECKS = {
  "C11": ("exploration", "reference-model monitor over exhaustively enumerated small universes: the real IdentifyAccount / CheckContractMethodPerm against a decimal-exact model written from the statement (strict and liberal readings; only what both demand is enforced) for every rule assignment x signer list of the boxes (threshold weights, key sets, nested accounts to depth 2 incl. cycles, 27 confusable URI forms, every order of every subset for decimal weights, monotonicity pairs); end to end: every subset of a 13-entry signer menu x every operation touching the XCAccount / XCContract / XCContract2Account buckets (SetAccountAcl, SetMethodAcl, raw bucket writes through $verif, spending, guarded method call) through State.VerifyTx in five phases (pending / confirmed rule changes) against the rules confirmed at the tip",
          "Exhaustive over the enumerated boxes (42M evaluations quick, 1G thorough; 72k / 1M verified transactions), nothing sampled; the boxes are small universes, not all rules.",
          "Trusted: the ~450-line statement model (cmd/c11/model.go), weights compared as the decimals the rule's author wrote; stub AclManager in part A; signature verification itself belongs to C07. Unspecified by the statement and only counted: re-pointing an existing contract->account mapping, the initiator's own signature, malformed URIs.", "DESIGN.md §3 C11"),
+ "C19": ("exploration", "reference-model monitor (token-ledger oracle written from the statement: balances, two lock types, lock records) over generated call sequences (Init / Transfer incl. self and fresh accounts / Propose / Vote / Thaw / timer tally / tdpos nominate, vote, revoke / raw Lock and UnLock through a forwarder under the unused caller name $xpos / refused look-alike callers) in two modes: FAST (direct kernel-contract calls over a versioned reader, ~0.9M calls) and END-TO-END (signed transactions -> pool -> PackBlock -> replica replay, real timer transactions, balance queries after every block); conservation, lock deltas only by lock/unlock on that account, transfer guard, caller restriction, panic detection",
+         "Runtime oracle over 30 800 sequences per quick run (1.5M thorough); held on what was explored.",
+         "Trusted: the model in cmd/c19/model.go. Judged by the letter of the statement: a repeated tdpos revoke (records are read from an older snapshot) releasing another live lock is an unlock operation and only counted; tokens left locked after a closed proposal are only counted.", "DESIGN.md §3 C19"),
  "C20": ("exploration", "codec: round trips over all message types x option subsets x payload classes (in process and after the wire), exhaustive single-bit flips and bursts <= 32 bits on payloads <= 2 kB, sampled on large ones, request->response type map; dispatcher: sequential model check + concurrent Register / UnRegister / Dispatch rounds in child processes under the race detector with an offline exactly-once / at-most-once / never checker over unique message ids",
          "Exhaustive for single-bit flips and bursts on small payloads, sampled elsewhere; concurrent interleavings are those the scheduler produced.",
          "Trusted: CRC32 / snappy libraries; the subscription-table model; race reports count only when both frames lie in dispatcher.go / subscriber.go.", "DESIGN.md §3 C20"),
